@@ -722,6 +722,34 @@ func translate(repo string, spec *TypeSpec) ([]Instr, []string, map[string][]str
 		}
 	}
 	t.code[0].Succ = entries
+	// frame-writing / frame-reading calls on the underlying connection anywhere else in the package (constructors and
+	// the closures they install as handlers, methods of other types): those are not nodes of the graph above, so no
+	// lock is known to be held around them
+	if len(spec.WireOps) > 0 {
+		t.facts["outside:wire"] = []string{}
+		scan := func(label string, fd *ast.FuncDecl) {
+			ast.Inspect(fd.Body, func(n ast.Node) bool {
+				ce, ok := n.(*ast.CallExpr)
+				if !ok {
+					return true
+				}
+				if se, ok := ce.Fun.(*ast.SelectorExpr); ok {
+					if _, isWire := spec.WireOps[se.Sel.Name]; isWire {
+						t.facts["outside:wire"] = append(t.facts["outside:wire"], label+":"+se.Sel.Name)
+					}
+				}
+				return true
+			})
+		}
+		for name, fd := range funcs {
+			scan(name, fd)
+		}
+		for k, fd := range methods {
+			if !strings.HasPrefix(k, spec.Recv+".") {
+				scan(k, fd)
+			}
+		}
+	}
 	return t.code, entryNames, t.facts
 }
 
